@@ -762,6 +762,40 @@ func c06exec(c *h.Ctx, cs *h.Case) {
 				if d := cc.aggCheck(t); d != "" {
 					cs.Fail("aggregate-wrong", d+" — "+op)
 				}
+			case "gtree":
+				// the tree is made by the real generator GenerateNaryTreeWithRoot(N, ro.List[root]); the
+				// items say which tree that has to be (complete N-ary, breadth-first, roster rotated to the
+				// root) with the roster position every node must carry
+				if len(tk) != 8 {
+					return
+				}
+				l, ok1 := atoi(tk[2])
+				tid, ok2 := atoi(tk[3])
+				rl, ok3 := atoi(tk[4])
+				ro, ok4 := cc.rosters[rl]
+				N, ok5 := atoi(tk[5])
+				root, ok6 := atoi(tk[6])
+				its, ok7 := c06items(tk[7])
+				if !ok1 || !ok2 || !ok3 || !ok4 || !ok5 || !ok6 || !ok7 || N == 0 || root >= len(ro.List) || c06keyless(ro) {
+					return
+				}
+				for _, it := range its {
+					if it.a >= len(ro.List) {
+						return
+					}
+				}
+				t := ro.GenerateNaryTreeWithRoot(N, ro.List[root])
+				if t == nil {
+					obs = "none"
+					cs.Fail("generator-no-tree", "GenerateNaryTreeWithRoot returned no tree for a root of the roster — "+op)
+					return
+				}
+				cc.bindTree(t, tid)
+				cc.trees[l] = t
+				obs = cc.showTree(t)
+				if d := cc.aggCheck(t); d != "" {
+					cs.Fail("aggregate-wrong", d+" — "+op)
+				}
 			case "retree":
 				// the TreeNode objects of an existing tree are re-used: one node gets a new leaf or
 				// loses its last child, then NewTree is called over the same root
@@ -1351,7 +1385,30 @@ func (t *c06tspec) pruned(label, tid, k int) *c06tspec {
 
 var c06junkKinds = []string{"empty", "unknown", "othertype"}
 
+// c06gtreeOp: `c06 gtree <label> <tid> <roster> <N> <root> <items>` — the items are the complete N-ary tree
+// in breadth-first order over the roster rotated to the root (what property C12 proves the generator
+// returns), computed here without the generator
+func c06gtreeOp(label, tid int, ro *c06rspec, N, root int) string {
+	n := len(ro.servers)
+	var it []string
+	var walk func(i int)
+	walk = func(i int) {
+		var kids []int
+		for k := N*i + 1; k <= N*i+N && k < n; k++ {
+			kids = append(kids, k)
+		}
+		pos := (i + root) % n
+		it = append(it, fmt.Sprintf("%d/%d:%d", pos, ro.servers[pos], len(kids)))
+		for _, k := range kids {
+			walk(k)
+		}
+	}
+	walk(0)
+	return fmt.Sprintf("c06 gtree %d %d %d %d %d %s", label, tid, ro.label, N, root, strings.Join(it, ","))
+}
+
 func c06gen(c *h.Ctx, yield func(*h.Case)) {
+	b5boundSearch(c)
 	r := c.Rng
 	emit := func(class string, ops []string) {
 		c.Count("class=" + strings.SplitN(class, " ", 2)[0])
@@ -1448,6 +1505,16 @@ func c06gen(c *h.Ctx, yield func(*h.Case)) {
 						ops = append(ops, fmt.Sprintf("c06 marshal-rt %d 2", t.label), fmt.Sprintf("c06 marshal-rt %d nil", t.label),
 							"c06 maketree "+t.desc(t.tid, 1)+" 1")
 					}
+				}
+				// a tree made by the real n-ary generator with a root that is not the first server: the
+				// sender's roster positions must be the ones the receiver recomputes (labels 14, 15)
+				for gi, lab := range []int{14, 15} {
+					N := 1 + r.Intn(4)
+					root := r.Intn(n)
+					if gi == 0 && n > 1 {
+						root = 1 + r.Intn(n-1)
+					}
+					ops = append(ops, c06gtreeOp(lab, lab, ro, N, root), fmt.Sprintf("c06 marshal-rt %d 1", lab), fmt.Sprintf("c06 binary-rt %d", lab))
 				}
 				// Tree.Equal; a tree value without roster; bytes that are no description / no binary form;
 				// a binary form whose roster was exchanged for another, or dropped
@@ -1704,5 +1771,6 @@ func c06gen(c *h.Ctx, yield func(*h.Case)) {
 	// --- malformed lines -------------------------------------------------------------------------
 	emit("malformed-lines", []string{"c06 roster 1 1 0", "c06 tree 1 1 1 0/0:0", "c06 roster 1 1 0 3/4,5/6", "c06 tree 1 1 1 0/3:1", "c06 tree 1 1 1 2/3:0",
 		"c06 marshal-rt 9 1", "c06 maketree T1,R1,1 1", "c06 strip 1 9", "c06 equal 1 9", "c06 frommarshal junk 1", "c06 frommarshal empty 9", "c06 binaryun junk x",
-		"c06 binaryun splice 9 1", "c06 binaryun", "c06 roster 2 2 0 3/-,5/6", "c06 tree 2 2 2 0/3:0", "c06 h.msg roster 2", "c06 h.msg resptree T1,R2,1;5/5:0 2", "c06 maketree X1,R1,1;3/3:0 1", "c06 h.msg tm T1,R1,1;3/3:1", "c06 h.msg frob 1", "c06 h.request x", "c06 h.reqfail", "c06 h.reqsend y", "c06 frob"})
+		"c06 binaryun splice 9 1", "c06 binaryun", "c06 roster 2 2 0 3/-,5/6", "c06 tree 2 2 2 0/3:0", "c06 h.msg roster 2", "c06 h.msg resptree T1,R2,1;5/5:0 2", "c06 maketree X1,R1,1;3/3:0 1", "c06 h.msg tm T1,R1,1;3/3:1", "c06 h.msg frob 1", "c06 h.request x", "c06 h.reqfail", "c06 h.reqsend y", "c06 frob",
+		"c06 gtree 1 1 1 2 0", "c06 gtree 1 1 9 2 0 0/3:0", "c06 gtree 1 1 1 0 0 0/3:0", "c06 gtree 1 1 1 2 7 0/3:0", "c06 gtree 1 1 1 x 0 0/3:0"})
 }
